@@ -11,7 +11,7 @@ CONSTANTS
   Tmo = {0}
   Horizon = 100000000
   AllowFaults = TRUE
-  AllowCancel = FALSE
+  AllowCancel = TRUE
   AllowStall = TRUE
   AbstractTime = FALSE
   LeakSearchIdOnDone = FALSE
